@@ -1043,6 +1043,22 @@ func (e *Env) RunC09(c *Case) (out *Out) {
 			msg += "mutating the copy changed the source;"
 		}
 		afterCopy := dump(cp)
+		// the copy, set to another value through the setters (Set<Field>(frozen) when freeze is on),
+		// holds exactly that value
+		e.lastArr = nil
+		exp := e.newRecord(c.Root)
+		e.set(rootT, exp, other, &setOpts{freeze: c.Freeze})
+		if d2 := dump(exp); afterCopy != d2 || cmp(cp.Interface(), exp.Interface()) != 0 {
+			msg += fmt.Sprintf("record set to a new value differs from a fresh record set to it (%s vs %s);", diffAt(afterCopy, d2), diffAt(d2, afterCopy))
+		}
+		// CopyFrom over a record that already holds another value (not only into a fresh one)
+		e.lastArr = nil
+		over := e.newRecord(c.Root)
+		e.set(rootT, over, c.Vals[(i+2)%n], &setOpts{freeze: c.Freeze})
+		call(over, "CopyFrom", exp)
+		if d3 := dump(over); d3 != dump(exp) || cmp(over.Interface(), exp.Interface()) != 0 || !call(over, "IsEqual", exp)[0].Bool() {
+			msg += fmt.Sprintf("CopyFrom over an existing value differs from the source (%s vs %s);", diffAt(d3, dump(exp)), diffAt(dump(exp), d3))
+		}
 		// mutate the source: the copy must not change
 		e.lastArr = nil
 		e.set(rootT, src, c.Vals[(i+2)%n], &setOpts{freeze: c.Freeze})
